@@ -208,17 +208,17 @@ Definition fetched_from (u : upstream) (sri : option string) (h : string) (s : Z
    \/ (b_clean (up_body u) = true /\ h = up_actual u /\ s = b_len (up_body u) /\ (sri = None \/ sri = Some h))).
 
 Lemma fetch_item_sound c d u sri d' h s :
-  fetch_item c d u sri = (d', Some (h, s)) -> fetched_from u sri h s.
+  fetch_item c d u sri = (d', Ok (h, s)) -> fetched_from u sri h s.
 Proof.
   unfold fetch_item, fetched_from. intros H. dif H. apply negb_false_iff in E. split; [exact E|].
   assert (Hcomputed :
-    (if negb (b_clean (up_body u)) then (d, None)
-     else if match sri with Some h0 => negb (String.eqb h0 (up_actual u)) | None => false end then (d, None)
+    (if negb (b_clean (up_body u)) then (d, Err ENotFound)
+     else if match sri with Some h0 => negb (String.eqb h0 (up_actual u)) | None => false end then (d, Err ENotFound)
      else match disk_put c d CAS (up_actual u) (b_len (up_body u))
                   (mkStream (b_cid (up_body u)) (b_len (up_body u)) false true (b_len (up_body u))) (up_rnd u) with
-          | (d'0, None) => (d'0, Some (up_actual u, b_len (up_body u)))
-          | (d'0, Some _) => (d'0, None)
-          end) = (d', Some (h, s)) ->
+          | (d'0, None) => (d'0, Ok (up_actual u, b_len (up_body u)))
+          | (d'0, Some e) => (d'0, Err e)
+          end) = (d', Ok (h, s)) ->
     b_clean (up_body u) = true /\ h = up_actual u /\ s = b_len (up_body u) /\ (sri = None \/ sri = Some h)).
   { clear H. intros H. dif H. dif H. apply negb_false_iff in E0.
     destruct (disk_put c d CAS (up_actual u) (b_len (up_body u)) _ (up_rnd u)) as [d1 r]. destruct r; [inversion H|].
@@ -241,8 +241,11 @@ Lemma fetch_uris_sound c sri : forall us d d' h s,
   fetch_uris c d us sri = (d', SOk, Some (h, s)) -> exists u, In u us /\ fetched_from u sri h s.
 Proof.
   induction us as [|u t IH]; intros d d' h s H; cbn in H; [inversion H|].
-  destruct (fetch_item c d u sri) as [d1 [dg|]] eqn:EI.
+  destruct (fetch_item c d u sri) as [d1 r] eqn:EI. destruct r as [dg|e| |].
   - inversion H; subst. exists u. split; [left; reflexivity|]. eapply fetch_item_sound; exact EI.
+  - destruct e; try (destruct (IH _ _ _ _ H) as [u' [Hin Hf]]; exists u'; split; [right; exact Hin|exact Hf]).
+    inversion H.
+  - destruct (IH _ _ _ _ H) as [u' [Hin Hf]]. exists u'. split; [right; exact Hin|exact Hf].
   - destruct (IH _ _ _ _ H) as [u' [Hin Hf]]. exists u'. split; [right; exact Hin|exact Hf].
 Qed.
 
@@ -259,13 +262,16 @@ Proof.
   - right. eapply fetch_uris_sound; exact H.
 Qed.
 
-(* every status FetchBlob can produce *)
+(* every status FetchBlob's download loop can produce *)
 Lemma fetch_uris_status c sri : forall us d d' st dg,
-  fetch_uris c d us sri = (d', st, dg) -> (st = SOk /\ dg <> None) \/ (st = SErr ENotFound /\ dg = None).
+  fetch_uris c d us sri = (d', st, dg) ->
+  (st = SOk /\ dg <> None) \/ (st = SErr ENotFound /\ dg = None) \/ (st = SErr EInsufficient /\ dg = None).
 Proof.
   induction us as [|u t IH]; intros d d' st dg H; cbn in H.
-  - inversion H; subst. right. auto.
-  - destruct (fetch_item c d u sri) as [d1 [x|]].
+  - inversion H; subst. right. left. auto.
+  - destruct (fetch_item c d u sri) as [d1 r]. destruct r as [x|e| |].
     + inversion H; subst. left. split; [reflexivity|discriminate].
+    + destruct e; try (eapply IH; exact H). inversion H; subst. right. right. auto.
+    + eapply IH; exact H.
     + eapply IH; exact H.
 Qed.
